@@ -128,9 +128,10 @@ pub fn start_fsm_with_data_and_finish_mode(
     {
         let mut gc = global_data.lock().unwrap();
         gc.actions = actions;
-        let executor_state_lock = executor.state.lock();
-        let guard = executor_state_lock.unwrap();
-        for p in &guard.processors {
+        // Copy the list and release the executor state before a processor is locked. A sending session
+        // locks "processor -> global data -> executor state", the opposite order deadlocks.
+        let processors = executor.state.lock().unwrap().processors.clone();
+        for p in &processors {
             let pg = p.lock().unwrap();
             for t in pg.get_types() {
                 gc.io_processors.insert(t.to_string(), p.clone());
@@ -3127,14 +3128,17 @@ impl Fsm {
             match datamodel.evaluate_content(&inv.content) {
                 None => Err("No content to execute".to_string()),
                 Some(content) => {
-                    let mut global = get_global!(datamodel);
-                    let session_id = global.session_id;
-
-                    let actions = global.actions.get_copy();
-                    global
-                        .executor
-                        .as_mut()
-                        .unwrap()
+                    // Don't hold the global data lock while the child is started (executor state and
+                    // processors get locked there, a timer of this session locks "processor -> global data").
+                    let (session_id, actions, mut executor) = {
+                        let global = get_global!(datamodel);
+                        (
+                            global.session_id,
+                            global.actions.get_copy(),
+                            global.executor.as_ref().unwrap().as_ref().clone(),
+                        )
+                    };
+                    executor
                         .execute_with_data_from_xml(
                             content.lock().unwrap().to_string().as_str(),
                             actions,
@@ -3148,10 +3152,15 @@ impl Fsm {
                 }
             }
         } else {
-            let mut global = get_global!(datamodel);
-            let session_id = global.session_id;
-            let actions = global.actions.get_copy();
-            global.executor.as_mut().unwrap().execute_with_data(
+            let (session_id, actions, mut executor) = {
+                let global = get_global!(datamodel);
+                (
+                    global.session_id,
+                    global.actions.get_copy(),
+                    global.executor.as_ref().unwrap().as_ref().clone(),
+                )
+            };
+            executor.execute_with_data(
                 src.to_string().as_str(),
                 actions,
                 &name_values,
